@@ -28,7 +28,7 @@ ASSUMPTIONS = ["numpy/scipy dense linear algebra", "reference gate table and Pau
                "PySCF SCF supplies the molecular orbitals; the identities checked hold for any orbital set, so SCF quality is not trusted",
                "encoded N/Sz/S^2 for bk/scbk/jkmn use tangelo.fermion_to_qubit_mapping with complete arguments (faithfulness of the encodings is property C03); for jw the Fock-space matrices are applied to the state directly",
                "only the cirq backend (exact, noiseless, no shots) is exercised; ansatz parameter update == rebuild is property C07",
-               "deflation circuits are not wider than the ansatz circuit (overlap with a state on a larger register is not defined by the API)"]
+               "deflation circuits are not wider than the circuit the solver evaluates (overlap with a state on a larger register is not defined by the API)"]
 SHARDS = {"quick": 4, "thorough": 16}
 
 TOL = 1e-8
@@ -490,6 +490,13 @@ def qham_cases(draw, deflation=False):
         case["ref"] = draw(small_circuit(n, max_gates=4))
     if draw(st.integers(0, 3)) == 0:
         case["proj"] = draw(small_circuit(n, max_gates=3, min_gates=1))
+    if deflation and kind == "circuit" and n >= 2 and draw(st.booleans()):
+        # user circuit on the lower n-1 qubits only (width not pinned), reference circuit reaching the top qubit: the
+        # ansatz circuit is narrower than the circuit that is evaluated
+        case["circuit"] = draw(small_circuit(n - 1, max_gates=8, variational=True, min_gates=1, fixed=False))
+        ref = draw(small_circuit(n, max_gates=3))
+        ref["gates"].append({"n": draw(st.sampled_from(["X", "H"])), "t": [n - 1], "c": None, "p": None})
+        case["ref"] = ref
     if deflation:
         k = draw(st.integers(1, 2))
         case["defl"] = [draw(small_circuit(draw(st.integers(1, n)), max_gates=8, fixed=draw(st.booleans()))) for _ in range(k)]
@@ -569,26 +576,40 @@ def deflation_circuits_for(case, solver_plain, n):
 def check_deflation(ctx, case, build, what):
     plain = build(None)
     theta = H.theta_vector(case["theta"], plain.ansatz.n_var_params)
+    tarr = np.array(theta, dtype=float) if len(theta) else []
     n_h = H.op_n_qubits(plain.qubit_hamiltonian.terms)
-    n = max(n_h, plain.ansatz.circuit.width)
-    circs, phis = deflation_circuits_for(case, plain, n)
-    e_plain, psi, n_psi = check_energy(plain, theta, what)
+    circs, _ = deflation_circuits_for(case, plain, max(n_h, plain.ansatz.circuit.width))
+    e_plain, psi_p, n_p = check_energy(plain, theta, what)
     defl = build(circs)
-    e_defl = defl.energy_estimation(np.array(theta, dtype=float) if len(theta) else [])
-    psi_d, n_d = solver_state(defl)
-    if n_d != n_psi or np.max(np.abs(psi_d - psi)) > TOL:
-        raise Fail("solver with deflation circuits prepares a different state than the plain solver", sig=f"{what}:state-differs")
-    if n_psi != n:
-        phis = [H.run_circuits([c], n=n_psi)[0] for c in circs]
+    e_defl = defl.energy_estimation(tarr)
+    psi, n = solver_state(defl)
+    n = max([n] + [c.width for c in circs])
+    psi, _ = H.run_circuits([defl.reference_circuit if defl.ref_state is not None else None, defl.ansatz.circuit,
+                             defl.projective_circuit if defl.projective_circuit else None], n=n)
+    phis = [H.run_circuits([c], n=n)[0] for c in circs]
     overlap = sum(abs(np.vdot(phi, psi)) ** 2 for phi in phis)
     expect = case["coeff"] * overlap
-    if abs((e_defl - e_plain) - expect) > TOL * max(1.0, abs(case["coeff"])):
-        raise Fail(f"E_defl - E_plain = {e_defl - e_plain!r}, coeff * sum |<phi_k|psi>|^2 = {expect!r} (coeff {case['coeff']}, "
-                   f"{len(phis)} circuit(s), widths {[c.width for c in circs]}, ansatz width {plain.ansatz.circuit.width})",
-                   sig=f"{what}:deflation-identity")
+    # plain energy of the very state the deflated solver prepared
+    e_state, _ = H.expectation(defl.qubit_hamiltonian.terms, psi, n)
+    tol = TOL * max(1.0, abs(case["coeff"]))
+    widths = f"deflation widths {[c.width for c in circs]}, ansatz width {defl.ansatz.circuit.width}, full circuit width {n}"
+    if abs((e_defl - e_state.real) - expect) > tol:
+        narrow = defl.ansatz.circuit.width < n
+        raise Fail(f"E_defl - <psi|H|psi> = {e_defl - e_state.real!r}, coeff * sum |<phi_k|psi>|^2 = {expect!r} (coeff {case['coeff']}, {widths})",
+                   sig=f"{what}:deflation-identity" + (":ansatz-narrower-than-circuit" if narrow else ""))
     labels = {f"n_defl={len(circs)}"}
-    if any(c.width < plain.ansatz.circuit.width for c in circs):
+    same_state = n_p == n and float(np.max(np.abs(psi_p - psi))) <= TOL
+    if same_state:
+        # the solver without deflation circuits, same options and parameters
+        if abs((e_defl - e_plain) - expect) > tol:
+            raise Fail(f"E_defl - E_plain = {e_defl - e_plain!r}, coeff * sum |<phi_k|psi>|^2 = {expect!r} ({widths})", sig=f"{what}:deflation-identity-vs-plain-solver")
+        labels.add("plain-solver-compared")
+    else:
+        labels.add("plain-solver-state-differs(C07)")     # repeated parameter updates not reproducing the circuit: property C07
+    if any(c.width < defl.ansatz.circuit.width for c in circs):
         labels.add("narrow-deflation")
+    if defl.ansatz.circuit.width < n:
+        labels.add("ansatz-narrower-than-circuit")
     if any(d.get("same_as_ansatz") for d in case["defl"]):
         labels.add("deflation=ansatz-structure")
     if overlap > 1e-6:
@@ -606,7 +627,9 @@ def deflation(ctx):
         theta, psi, overlap, labels = check_deflation(ctx, case, lambda dc: build_qham_solver(ctx, case, dc), "defl")
         return (any(t != 0.0 for t in theta) and not H.is_basis_state(psi) and overlap > 1e-9), labels | qham_labels(case, theta)
 
-    ctx.search("deflation_qham", qham_cases(deflation=True), body, frac=0.75)
+    ctx.search("deflation_qham", qham_cases(deflation=True), body, frac=0.75,
+               exclusions={"defl:deflation-identity:ansatz-narrower-than-circuit":
+                           lambda c: c["kind"] == "circuit" and c["circuit"].get("nq") is None})
 
     # molecule-based solvers (small active spaces), incl. reference override as in the documented excited-state recipe
     @st.composite
